@@ -54,6 +54,9 @@ type GenOpts struct {
 	NoCycles bool // references only point to objects declared earlier
 	NoAllOf  bool
 	Wild     bool // also emit shapes that are legal but unusual (C04 territory)
+	// Plain keeps unions flat: branches are scalars or references, `T | null`
+	// only over a non-union T, no anonymous struct inside a union, no allOf.
+	Plain bool
 }
 
 type worldGen struct {
@@ -209,8 +212,17 @@ func (g *worldGen) typ() *WType {
 		// union of scalars
 		n := 2 + r.Intn(2)
 		t := &WType{K: "union"}
+		seenK := map[string]bool{}
 		for i := 0; i < n; i++ {
-			t.Branches = append(t.Branches, g.scalar())
+			b := g.scalar()
+			if g.opts.Plain && (seenK[b.K] || b.K == "any") {
+				continue // flat unions of distinct, concrete scalar kinds only
+			}
+			seenK[b.K] = true
+			t.Branches = append(t.Branches, b)
+		}
+		if len(t.Branches) < 2 {
+			t.Branches = []*WType{{K: "string"}, {K: "int"}}
 		}
 		if r.Chance(1, 3) {
 			t.Branches = append(t.Branches, &WType{K: "null"})
@@ -218,7 +230,11 @@ func (g *worldGen) typ() *WType {
 		return t
 	case 10:
 		// T | null
-		return &WType{K: "union", Branches: []*WType{g.typ(), {K: "null"}}}
+		t := g.typ()
+		if g.opts.Plain && (t.K == "union" || t.K == "allof") {
+			t = g.scalar()
+		}
+		return &WType{K: "union", Branches: []*WType{t, {K: "null"}}}
 	case 11:
 		// union of refs to structs
 		if pool := g.structRefPool(); len(pool) >= 2 {
@@ -240,10 +256,13 @@ func (g *worldGen) typ() *WType {
 		return g.ref()
 	case 12:
 		// union mixing anonymous structs / arrays
+		if g.opts.Plain {
+			return &WType{K: "array", Elem: g.structType(2)}
+		}
 		return &WType{K: "union", Branches: []*WType{g.structType(2), {K: "array", Elem: g.scalar()}}}
 	default:
 		// allOf
-		if g.opts.NoAllOf {
+		if g.opts.NoAllOf || g.opts.Plain {
 			return g.structType(3)
 		}
 		if pool := g.structRefPool(); len(pool) > 0 && r.Bool() {
